@@ -144,8 +144,13 @@ def regress_scenarios(full):
     # C19 known: table keyed by name across contexts
     add([D("c1", 0, "c_two"), CL("c1", 1), D("c1", 1, "c_three"), CL("c1", 0), D("c7", 1, "c_cat"), T(0), CL("c7", 0)], cfg="known-cmd-name")
     # C18
+    # (three lifecycles: a refused duplicate spawn must not take over at a later respawn either)
     add([SP("g1", 0, "g_stream3"), SP("g2", 1, "g_single"), SP("g3", 1, "g_empty"), SP("g1", 0, "g_stream1"), SP("g5", 1, "g_nocontent")],
-        gen_cycles=2)
+        gen_cycles=3)
+    # C18: a duplicate spawn arrives while the first generator cycles: it is refused, and the respawns that follow
+    # (also the one scheduled after the refusal) still belong to the accepted spawn
+    add([dict(SP("g1", 0, "g_stream1"), nowait=True), dict(SP("g1", 0, "g_stream3"), nowait=True), dict(a="sleep", ms=2600)],
+        gen_cycles=3)
     add([SP("g1", 0, "g_bad_parse"), SP("g2", 1, "g_ints"), SP("g3", 1, "g_listvalue")], cfg="known-12")
     # C14: pulse markers of its own subscription; C19: per-call isolation
     add([R("h1", 0, "h_pulse"), T(0), dict(a="sleep", ms=200), T(0, "t.y"), RS("kill"), dict(a="sleep", ms=200), T(0)])
